@@ -634,14 +634,6 @@ void *initial_rate_control_kernel(void *input_ptr) {
                             else
                                 out_results_ptr->pcs_wrapper_ptr =
                                     queue_entry_ptr->parent_pcs_wrapper_ptr;
-                            if (scs_ptr->static_config.look_ahead_distance != 0 &&
-                                scs_ptr->static_config.enable_tpl_la &&
-                                ((has_overlay == 0 && loop_index == 0) ||
-                                 (has_overlay == 1 && loop_index == 1))) {
-                                // Release Pa Ref pictures when not needed
-                                release_pa_reference_objects(scs_ptr, pcs_ptr);
-                                //loop_index ? pcs_ptr : queueEntryPtr);
-                            }
                             // Post the Full Results Object
                             svt_post_full_object(out_results_wrapper_ptr);
                         }
